@@ -181,3 +181,15 @@ def run(ctx):
             c02.check_prog(ctx, r, p, ctx.pick(3, 30))
     fam.each_bin(per_bin)
     ctx.cov["compiled_generic_programs"] = len(fam.progs)
+    # (3) interfaces whose handlers take `CosmosMsg<Self::ExecC>`-typed arguments: the custom types are associated types like any other
+    gen = ctx.family("general")
+    sp = [p for p in gen.progs if any(part.get("special_params") for part in p["parts"])]
+    observe(ctx, sp, "c15c")
+
+    def per_bin_sp(b, ps, r):
+        for p in ps:
+            if any(part.get("special_params") for part in p["parts"]):
+                c01.check_prog(ctx, r, p, ctx.pick(2, 10))
+                c02.check_prog(ctx, r, p, ctx.pick(2, 10))
+    gen.each_bin(per_bin_sp)
+    ctx.cov["programs_with_custom_typed_arguments"] = len(sp)
